@@ -518,7 +518,7 @@ func (run *suppaRun) iterate(r *Rng, n int) bool {
 	cdBefore := ex.VerifCountdown()
 	run.rec.events = nil
 	if p := protect(func() { ex.TryRandomChange() }); p != "" {
-		if strings.Contains(p, "Attempt limit reached") {
+		if isGiveUp(p) {
 			c.Stat("suppa run ended: attempt-limit panic inside Randomize (limit never binds)")
 			return false
 		}
